@@ -120,6 +120,69 @@ func c05Seq(tier string, shard, n int, deadline time.Time, res *Result) {
 	}
 }
 
+// c05Scenarios: the slot the running proxy ASSIGNS to each key of a multi-key request (it groups keys by slot and
+// routes each group): every key of every ordered pair / triple over a pool of awkward keys must arrive at the node
+// that owns its specification slot.
+func c05Scenarios(tier string) []*world.Scenario {
+	pool := []string{"", "{", "}", "{}", "{}a", "a{}", "}a{b}", "{a}b", "a{b", keysA[0], keysB[0], keysC[0], "\xff\x80k", "{{a}}"}
+	var lists [][]string
+	for _, x := range pool {
+		for _, y := range pool {
+			lists = append(lists, []string{x, y})
+			if tier == "thorough" {
+				for _, z := range pool {
+					lists = append(lists, []string{x, y, z})
+				}
+			}
+		}
+	}
+	for _, x := range pool[:8] {
+		for _, y := range pool[:8] {
+			for _, z := range pool[:8] {
+				lists = append(lists, []string{x, y, z})
+			}
+		}
+	}
+	var out []*world.Scenario
+	const batch = 60
+	for _, kind := range []string{"mget", "del"} {
+		for i := 0; i < len(lists); i += batch {
+			j := i + batch
+			if j > len(lists) {
+				j = len(lists)
+			}
+			part := lists[i:j]
+			sc := &world.Scenario{Nodes: T3m(), Bound: 0, Family: "assigned-slot", Horizon: 1 << 20, InputEnum: true}
+			cs := world.ClientSpec{}
+			for n, l := range part {
+				raw := world.Cmd(append([]string{kind}, l...)...)
+				cs.Chunks = append(cs.Chunks, world.Chunk{Data: raw, WaitReplies: n})
+				cs.Reqs = append(cs.Reqs, raw)
+				cs.Expect = append(cs.Expect, nil)
+			}
+			sc.Clients = []world.ClientSpec{cs}
+			sc.Name = fmt.Sprintf("C05/e1/%s/batch%d(%q ..)", kind, i/batch, part[0])
+			sc.Check = func(w *world.World) []world.Violation {
+				for _, rec := range w.DataCmds("") {
+					for _, k := range rec.Args[1:] {
+						m := w.Sc.MasterOf(world.SpecSlot(k))
+						if m == nil || m.Addr != rec.Addr {
+							want := "<none>"
+							if m != nil {
+								want = m.Addr
+							}
+							return []world.Violation{{Sig: "assigned-slot-differs", Msg: fmt.Sprintf("key %q (specification slot %d, owner %s) was sent to %s inside %q", k, world.SpecSlot(k), want, rec.Addr, rec.Raw)}}
+						}
+					}
+				}
+				return CheckStreams(w, StreamOpts{})
+			}
+			out = append(out, sc)
+		}
+	}
+	return out
+}
+
 // ---------------------------------------------------------------------------------------------
 // C19: I/O buffers behave as exact FIFO byte queues.
 
@@ -535,14 +598,34 @@ func c19Seq(tier string, shard, n int, deadline time.Time, res *Result) {
 	res.Extra = map[string]interface{}{"distinct_nontrivial_override": float64(nontrivSeqs)}
 }
 
+// c19Scenarios: the same buffers inside the running proxy: replies to a slow reader (conn.write / conn.writev partial-write
+// bookkeeping, eventloop.write draining ring + list) under every write answer within the bound.
+func c19Scenarios(tier string) []*world.Scenario {
+	b := 2
+	if tier == "thorough" {
+		b = 3
+	}
+	var out []*world.Scenario
+	for _, sz := range [][3]int{{1, 30, 30}, {40, 3, 20}, {3, 3, 90}, {70, 70, 70}} {
+		out = append(out, SlowMultiFlush("C19", sz, b))
+	}
+	for _, n := range []int{10, 100, 700} {
+		rep := world.Bulk(strings.Repeat("0123456789", n/10))
+		out = append(out, c02Seg("get", world.Cmd("get", keysA[0]), rep, nil, nil, true, b))
+		out[len(out)-1].Name = fmt.Sprintf("C19/slow-reader/reply%d/d%d", len(rep), b)
+		out[len(out)-1].Family = "slow-reader"
+	}
+	return out
+}
+
 func init() {
 	register(&Check{ID: "C05", Level: "model_checking",
-		Rule: "bounded-exhaustive input enumeration: every string over {'{','}',a,b} up to length 8 (thorough 10), every string over {'{','}',00,ff} and over {'{','}',CR,LF,k} up to length 5 (thorough 7), all 256 one-byte and all 65536 two-byte strings (thorough: + 458752 three-byte strings), one brace-free, one tagged and one '}'-before-'{' key for each of the 16384 slots, the specification vector '123456789'; oracle: bitwise CRC16/XMODEM (no table) over the specification's hash-tag rule, mod 16384; states = inputs, transitions = evaluations of hashkit.Hash; non-trivial = inputs containing a brace, distinct = distinct specification slots they hit",
-		Seq: c05Seq, BudgetQuick: 60, BudgetThorough: 600,
+		Rule: "bounded-exhaustive input enumeration: every string over {'{','}',a,b} up to length 8 (thorough 10), every string over {'{','}',00,ff} and over {'{','}',CR,LF,k} up to length 5 (thorough 7), all 256 one-byte and all 65536 two-byte strings (thorough: + 458752 three-byte strings), one brace-free, one tagged and one '}'-before-'{' key for each of the 16384 slots, the specification vector '123456789'; plus, through the running proxy, every ordered pair (thorough: triple) of a 14-key pool of awkward keys (empty, lone braces, empty tag, '}' before '{', nested braces, binary) as MGET and DEL, each key having to arrive at the node that owns its specification slot; oracle: bitwise CRC16/XMODEM (no table) over the specification's hash-tag rule, mod 16384; states = inputs, transitions = evaluations of hashkit.Hash; non-trivial = inputs containing a brace, distinct = distinct specification slots they hit",
+		Seq: c05Seq, Scenarios: c05Scenarios, BudgetQuick: 60, BudgetThorough: 600,
 		Assumptions: []string{"the slot function depends only on brace positions and a length-uniform CRC recurrence over a 256-entry table; both are covered exhaustively"}})
 	register(&Check{ID: "C19", Level: "model_checking",
-		Rule: "every operation sequence up to length 4 (thorough 5; one less for the 1 KiB / 4 KiB configurations) over {Write k, Writev(k1,k2), Read k, Peek k / all, Discard k, Reset, WriteByte, ReadByte, Bytes, ReadFrom k, WriteTo(limit k / unlimited)} with k in {1,3,cap-1,cap,cap+1,2cap+1} on ring.Buffer (initial capacity 0, 4, 8, 4096; thorough also 1024), linkedlist.Buffer, elastic.RingBuffer and elastic.Buffer (static limit 8, 1024; thorough also 4, 4096); payload bytes are a running counter; oracle: a []byte queue, compared after every operation (returned/peeked bytes, discarded counts, Buffered, IsEmpty) and by a final drain; states = sequences, transitions = operations executed",
-		Seq: c19Seq, BudgetQuick: 90, BudgetThorough: 1200,
+		Rule: "every operation sequence up to length 4 (thorough 5; one less for the 1 KiB / 4 KiB configurations) over {Write k, Writev(k1,k2), Read k, Peek k / all, Discard k, Reset, WriteByte, ReadByte, Bytes, ReadFrom k, WriteTo(limit k / unlimited)} with k in {1,3,cap-1,cap,cap+1,2cap+1} on ring.Buffer (initial capacity 0, 4, 8, 4096; thorough also 1024), linkedlist.Buffer, elastic.RingBuffer and elastic.Buffer (static limit 8, 1024; thorough also 4, 4096); payload bytes are a running counter; oracle: a []byte queue, compared after every operation (returned/peeked bytes, discarded counts, Buffered, IsEmpty) and by a final drain; plus, inside the running proxy, replies of 17..700 bytes and batches of three replies released by one vectored write to a slow reader under every EAGAIN / short-write answer within the bound (the client must receive the exact stream); states = sequences + decision nodes, transitions = operations executed + choice points",
+		Seq: c19Seq, Scenarios: c19Scenarios, BudgetQuick: 90, BudgetThorough: 1200,
 		Assumptions: []string{"ReadFrom is driven by readers that return data and EOF in separate calls; WriteTo by writers that return short counts without an error (non-blocking socket behaviour) - the property statement does not cover readers/writers that fail"}})
 	SeqReplay["C05"] = func(in string) (string, bool) {
 		key, _ := hex.DecodeString(in)
